@@ -72,7 +72,7 @@ def confirm(rec, families):
 def run_c05(tier):
     variants = [{"mode": "c05", "program": "evaluate"}, {"mode": "c05", "program": "assemble+compute"}]
     return keval.run("C05", tier, families=["safety", "handback"], worker=kprog.run_task, variants=variants,
-                     confirm_fn=confirm, validate=False, functions=FUNCS,
+                     confirm_fn=confirm, validate=False, functions=FUNCS, validator=validate_asan,
                      extra_assumptions=["element counts fit int32 (dimensions <= D)",
                                         "allocation failure is not modelled",
                                         "compute runs on the output assemble produced"])
@@ -81,7 +81,7 @@ def run_c05(tier):
 def run_c04(tier):
     variants = [{"mode": "c04", "program": None}]
     return keval.run("C04", tier, families=["mismatch"], worker=kprog.run_task, variants=variants,
-                     confirm_fn=confirm, validate=False, functions=FUNCS,
+                     confirm_fn=confirm, validate=False, functions=FUNCS, validator=validate_asan,
                      extra_assumptions=["history = assemble once, compute, compute again with re-valued inputs of the same "
                                         "structure (one re-run; compute reads no state of a previous compute: checked by "
                                         "comparing the second result with the specification of the new values)"])
@@ -171,3 +171,49 @@ def run_c16(tier):
                                         "monotone in it, the same stored entries follow the same path - hence execute the same loop "
                                         "iterations and statements - under any larger dimension",
                                         "a loop bounded by such a dimension cannot complete a path and is reported as unwinding violation"])
+
+
+def validate_asan(results, limit):
+    """Serval-style validation of the executor against the implementation: witnesses of verified
+    paths run through the concrete IR machine and through the emitted C compiled with
+    gcc -fsanitize=address,undefined (evaluate and assemble;compute); outputs must agree, the
+    sanitizers must stay silent and evaluate must equal assemble;compute."""
+    n = 0
+    problems = []
+    seen = set()
+    for r in results:
+        if n >= limit:
+            break
+        w = r.get("witness")
+        if r["status"] != "ok" or not w:
+            continue
+        key = (r["request"]["assignment"], tuple(sorted(r["request"]["formats"].items())))
+        if key in seen:
+            continue
+        seen.add(key)
+        req = Request.make(r["request"]["assignment"], r["request"]["formats"])
+        comp = compile_request(req, kinds=kprog.KINDS3)
+        outs = []
+        ok = True
+        for fns in (["evaluate"], ["assemble", "compute"]):
+            ir = replay.concrete_ir_run(comp, fns, w)
+            if ir["violation"] is not None:
+                problems.append(f"witness of a verified path violates on the IR machine: {req.key()} {fns} {ir['violation']}")
+                ok = False
+                break
+            asan = replay.asan_run(comp, fns, w)
+            if asan["status"] != "ok":
+                problems.append(f"sanitizer build failed on a witness of a verified path: {req.key()} {fns} {asan['status']} {asan.get('stderr', '')[-300:]}")
+                ok = False
+                break
+            if not judge.same_raw(ir["output"], asan["output"]):
+                problems.append(f"IR machine and compiled C disagree on a witness: {req.key()} {fns} {ir['output']} vs {asan['output']}")
+                ok = False
+                break
+            outs.append(asan["output"])
+        if ok and len(outs) == 2 and not judge.same_raw(outs[0], outs[1]):
+            problems.append(f"compiled evaluate != assemble;compute on a witness of a verified path: {req.key()}")
+            ok = False
+        if ok:
+            n += 1
+    return n, problems
